@@ -78,6 +78,25 @@ def run(ck: Check) -> None:
         want.append("E InvalidSignature")
         cases.append(Case("vgpg", [gen.raw_entry(k, data) | {"other_headers": hdr.hex()}, k.hex, data], tag="raw-signature-in-gpg-shape", group=i))
         want.append("E InvalidSignature")
+    # entries as GnuPG really emits them — a well-formed hashed area whose subpackets use every length form (long notations, policy URIs), labelled with a
+    # see_also fingerprint that matches the issuer subpacket or does not — over payloads whose length sits on buffer / hash-block / length-field boundaries
+    sizes = gen.sizes_of_interest()
+    big = [n for n in sizes if n > 9000]
+    for i in range(ck.n(500, 120)):
+        k = gen.key(rng.randrange(10))
+        n = rng.choice(big) if (i % 6 == 0 and big) else rng.choice([x for x in sizes if x <= 9000] + [0, 1, 17, 300])
+        data = bytes([rng.getrandbits(8)]) * n if i % 2 else bytes(rng.getrandbits(8) for _ in range(min(n, 64))) + b"\x00" * max(0, n - 64)
+        hdr = gen.realistic_hdr(rng)
+        fp = hdr[9:29].hex() if (hdr[7:9] == b"\x21\x04" and i % 3) else "ab" * 20
+        e = gen.gpg_entry(k, data, hdr, see_also=(fp if i % 4 else None))
+        ck.count("realistic-header:" + ("boundary-payload" if n in sizes else "payload"))
+        cases.append(Case("vgpg", [e, k.hex, data], tag="valid-realistic", group=1000 + i))
+        want.append("OK")
+        cases.append(Case("vgpg", [e, k.hex, data + b"\x00"], tag="payload-extended", group=1000 + i))
+        want.append("E InvalidSignature")
+        if n:
+            cases.append(Case("vgpg", [e, k.hex, data[:-1]], tag="payload-shortened", group=1000 + i))
+            want.append("E InvalidSignature")
     # signatures whose first octet(s) are zero, presented as an OpenPGP MPI would carry them (leading zero octets dropped): not 64 bytes, not a signature
     found = 0
     for j in range(4000):
